@@ -104,8 +104,19 @@ def resStr : Res → String
   | .reported c => "reported " ++ codeStr c
   | .fault _ => "fault"
 
-def exec : List Sexp → String
-  | [.atom "fmt", ctx, ve] =>
+def oracleOf : Sexp → Option (List (Str × Str))
+  | .list es => es.mapM fun (e : Sexp) => match e with
+      | Sexp.list [k, v] => do let k' ← k.str?; let v' ← v.str?; pure (k'.toList, v'.toList)
+      | _ => none
+  | _ => none
+
+/-- the FloatIO of a `fmtf` op: Sprintf answers from the oracle (the sentinel for a format that is not listed),
+    float64(int64) as given -/
+def oracleIO (ofint : Nat) (tbl : List (Str × Str)) : FloatIO :=
+  { sprintf := fun fm _ => match tbl.find? (fun e => e.1 == fm) with | some e => e.2 | none => [sentinel],
+    ofInt := fun _ => ofint, toInt := truncBits }
+
+def execFmt (io : FloatIO) (ctx ve : Sexp) : String :=
     match valOf ve with
     | none => "bad-op"
     | some v =>
@@ -116,7 +127,7 @@ def exec : List Sexp → String
          | some d =>
            match newFormat d.toList with
            | .error c => "reported " ++ codeStr c
-           | .ok f => resStr (format driverIO [(kindKey v.kind, .mk f none)] v))
+           | .ok f => resStr (format io [(kindKey v.kind, .mk f none)] v))
       | .list [.atom "self", d] =>
         (match d.str? with
          | none => "bad-op"
@@ -124,13 +135,25 @@ def exec : List Sexp → String
            if v.isContainer then "out-of-model"   -- which children the value's own type accepts is a lattice question
            else match newFormat d.toList with
              | .error c => "reported " ++ codeStr c
-             | .ok f => resStr (format driverIO [(.any, .mk f none)] v))
+             | .ok f => resStr (format io [(.any, .mk f none)] v))
       | .list (.atom "map" :: es) =>
         (match mapOf es with
          | .bad => "bad-op"
          | .err c => "reported " ++ codeStr c
-         | .ok m => resStr (format driverIO m v))
+         | .ok m => resStr (format io m v))
       | _ => "bad-op"
+
+def exec : List Sexp → String
+  | [.atom "fmt", ctx, ve] => execFmt driverIO ctx ve
+  | [.atom "fmtf", ctx, ve, ofint, oracle] =>
+    match oracleOf oracle with
+    | none => "bad-op"
+    | some tbl =>
+      match ofint with
+      | .atom "-" => execFmt (oracleIO 0 tbl) ctx ve
+      | e => match e.nat? with
+        | some n => execFmt (oracleIO n tbl) ctx ve
+        | none => "bad-op"
   | _ => "bad-op"
 
 end C20
